@@ -25,6 +25,7 @@
 SimAlloc g_alloc;
 SimClock g_clock;
 SimFs g_fs;
+void (*g_after_mmap)() = nullptr;
 SimSyncHooks g_sync = {0, 0, 0};
 size_t g_arena_initial_size = 0;
 int64_t g_arena_creates = 0;
@@ -215,6 +216,7 @@ char* sim_strndup(const char* s, size_t max) {
 int sim_clock_gettime(clockid_t clk, struct timespec* ts) {
   if (!g_clock.simulated) return clock_gettime(clk, ts);
   if (g_sync.yield) g_sync.yield(YK_CLOCK, __builtin_return_address(0));
+  if (g_clock.override_fn && g_clock.override_fn((int) clk, ts)) { __atomic_add_fetch(&g_clock.reads, 1, __ATOMIC_SEQ_CST); return 0; }
   int64_t r = __atomic_add_fetch(&g_clock.reads, 1, __ATOMIC_SEQ_CST);
   if (r == g_clock.jump_at_read) g_clock.now_ns += g_clock.jump_ns;
   g_clock.now_ns += g_clock.step_ns;
@@ -282,7 +284,7 @@ void* sim_mmap(void* addr, size_t len, int prot, int flags, int fd, off_t off) {
   int n = __atomic_add_fetch(&g_fs.mmaps, 1, __ATOMIC_SEQ_CST);
   if (n == g_fs.fail_mmap_at) { g_fs.faults_fired++; errno = ENOMEM; return MAP_FAILED; }
   void* p = mmap(addr, len, prot, flags, fd, off);
-  if (p != MAP_FAILED) { pthread_mutex_lock(&g_fs_mu); if (!g_maps) g_maps = new std::set<void*>(); g_maps->insert(p); g_fs.live_maps = g_maps->size(); pthread_mutex_unlock(&g_fs_mu); }
+  if (p != MAP_FAILED) { pthread_mutex_lock(&g_fs_mu); if (!g_maps) g_maps = new std::set<void*>(); g_maps->insert(p); g_fs.live_maps = g_maps->size(); pthread_mutex_unlock(&g_fs_mu); if (g_after_mmap) g_after_mmap(); }
   return p;
 }
 int sim_munmap(void* p, size_t len) {
@@ -338,8 +340,9 @@ void sim_fs_reset() { g_fs = SimFs(); }
 // ------------------------------------------------------------- symbolizer ---
 struct Sym { uintptr_t lo, hi; std::string name; };
 static std::vector<Sym>* g_syms;
+static std::vector<Sym>* g_dsyms;
 static void load_syms() {
-  g_syms = new std::vector<Sym>();
+  g_syms = new std::vector<Sym>(); g_dsyms = new std::vector<Sym>();
   int fd = open("/proc/self/exe", O_RDONLY);
   if (fd < 0) return;
   struct stat st; fstat(fd, &st);
@@ -357,6 +360,8 @@ static void load_syms() {
     for (size_t k = 0; k < n; k++)
       if (ELF64_ST_TYPE(s[k].st_info) == STT_FUNC && s[k].st_value)
         g_syms->push_back({(uintptr_t) s[k].st_value, (uintptr_t) s[k].st_value + (s[k].st_size ? s[k].st_size : 1), str + s[k].st_name});
+      else if (ELF64_ST_TYPE(s[k].st_info) == STT_OBJECT && s[k].st_value)
+        g_dsyms->push_back({(uintptr_t) s[k].st_value, (uintptr_t) s[k].st_value + (s[k].st_size ? s[k].st_size : 1), str + s[k].st_name});
   }
   munmap(m, st.st_size);
   std::sort(g_syms->begin(), g_syms->end(), [](const Sym& a, const Sym& b) { return a.lo < b.lo; });
@@ -374,6 +379,12 @@ std::string sim_symbolize(void* pc) {
   size_t dot = n.find('.');
   if (dot != std::string::npos) n.resize(dot);
   return n;
+}
+std::string sim_symbolize_data(const void* addr) {
+  if (!g_syms) load_syms();
+  uintptr_t a = (uintptr_t) addr;
+  for (auto& s : *g_dsyms) if (a >= s.lo && a < s.hi) { std::string n = s.name; size_t dot = n.find('.'); if (dot != std::string::npos && dot > 0) n.resize(dot); return n + (a > s.lo ? "+" + std::to_string(a - s.lo) : ""); }
+  return "?";
 }
 std::string sim_bt_chain(void* const* bt, int skip_sim, int want) {
   std::string out; int got = 0;
